@@ -328,13 +328,20 @@ def compile (clk : Nat → Nat) (e : Expr) (o : RunOptions) : CRes Compiled :=
           terminate := st.mgr.terminate,
           ioMap := st.mgr.printerMap }
 
-/-- `CompiledExpression::scheme(mdt)`. -/
-def Compiled.scheme (c : Compiled) (mdt : Text) : Text :=
+/-- Text before the opening quote of the device string in `CompiledExpression::scheme`. -/
+def Compiled.prefix_ (c : Compiled) : Text :=
   cl!"(use-modules (lipe) (lipe find)" ++ c.modules ++ cl!")\n\n(let* (" ++ c.definitions
   ++ cl!")\n  (dynamic-wind\n    (lambda () " ++ c.initialization
-  ++ cl!")\n    (lambda () (lipe-scan\n        \"" ++ schemeEscape mdt
-  ++ cl!"\"\n        (lipe-getopt-client-mount-path)\n        (lambda () " ++ c.policyBody
+  ++ cl!")\n    (lambda () (lipe-scan\n        "
+
+/-- Text after the closing quote of the device string. -/
+def Compiled.suffix_ (c : Compiled) : Text :=
+  cl!"\n        (lipe-getopt-client-mount-path)\n        (lambda () " ++ c.policyBody
   ++ cl!")\n        (lipe-getopt-required-attrs)\n        " ++ c.options
   ++ cl!"))\n    (lambda () " ++ c.terminate ++ cl!")))"
+
+/-- `CompiledExpression::scheme(mdt)`: the `format!` template with the escaped device path. -/
+def Compiled.scheme (c : Compiled) (mdt : Text) : Text :=
+  c.prefix_ ++ ('"' :: (schemeEscape mdt ++ ('"' :: c.suffix_)))
 
 end FV
